@@ -727,4 +727,118 @@ theorem fromVecGo_of_inv : ∀ {rs : Ranges} (prev : Option Range), RInv rs →
 theorem fromVec_of_inv {rs : Ranges} (hi : RInv rs) : fromVec rs = .ok rs := by
   simp [fromVec, fromVecGo_of_inv none hi (by simp)]
 
+/-! ### the decidable invariant -/
+
+theorem sortedB_pairwise : ∀ {rs : Ranges}, sortedB rs = true → (∀ r ∈ rs, r.1 ≤ r.2) →
+    rs.Pairwise (fun a b => a.2 + 1 < b.1)
+  | [], _, _ => List.Pairwise.nil
+  | [a], _, _ => by simp
+  | a :: b :: rest, hs, hv => by
+    simp only [sortedB, Bool.and_eq_true, decide_eq_true_eq] at hs
+    have ih := sortedB_pairwise hs.2 (fun r hr => hv r (List.mem_cons_of_mem _ hr))
+    refine List.pairwise_cons.2 ⟨?_, ih⟩
+    intro y hy
+    rcases List.mem_cons.1 hy with rfl | hy
+    · exact hs.1
+    · have h1 := (List.pairwise_cons.1 ih).1 y hy
+      have h2 := hv b (by simp)
+      omega
+
+theorem pairwise_sortedB : ∀ {rs : Ranges}, rs.Pairwise (fun a b => a.2 + 1 < b.1) → sortedB rs = true
+  | [], _ => rfl
+  | [a], _ => rfl
+  | a :: b :: rest, h => by
+    simp only [sortedB, Bool.and_eq_true, decide_eq_true_eq]
+    exact ⟨(List.pairwise_cons.1 h).1 b (by simp), pairwise_sortedB (List.pairwise_cons.1 h).2⟩
+
+theorem invB_iff (rs : Ranges) : invB rs = true ↔ RInv rs := by
+  simp only [invB, Bool.and_eq_true, Lumina.Model.Ranges.Inv, AllValid, allValidB, List.all_eq_true,
+    decide_eq_true_eq]
+  constructor
+  · rintro ⟨h1, h2⟩
+    have h2' : ∀ r ∈ rs, 1 ≤ r.1 ∧ r.1 ≤ r.2 ∧ r.2 ≤ U64_MAX := fun r hr => by
+      have := h2 r hr; omega
+    exact ⟨sortedB_pairwise h1 (fun r hr => (h2' r hr).2.1), h2'⟩
+  · rintro ⟨h1, h2⟩
+    exact ⟨pairwise_sortedB h1, fun r hr => by have := h2 r hr; omega⟩
+
+theorem inv_of_invB {rs : Ranges} (h : invB rs = true) : RInv rs := (invB_iff rs).1 h
+
+/-! ### union / difference / complement / intersection -/
+
+theorem expectOk_ok {α} (a : α) : expectOk (.ok a : Res α) = .ok a := rfl
+
+/-- `Add` / `BitOr`: set union -/
+theorem add_spec : ∀ {b a : Ranges}, RInv a → RInv b →
+    ∃ c, add a b = .ok c ∧ RInv c ∧ ∀ h, mem c h ↔ mem a h ∨ mem b h
+  | [], a, ha, _ => ⟨a, rfl, ha, fun h => by simp [mem_nil]⟩
+  | r :: b, a, ha, hb => by
+    obtain ⟨_, hv, hb'⟩ := inv_cons.1 hb
+    obtain ⟨a', h1, h2, h3⟩ := insertRelaxed_spec ha hv
+    obtain ⟨c, h4, h5, h6⟩ := add_spec (b := b) h2 hb'
+    refine ⟨c, by simp [add, h1, expectOk_ok, h4], h5, ?_⟩
+    intro h
+    rw [h6, h3, mem_cons]
+    constructor
+    · rintro ((h | h) | h)
+      · exact Or.inl h
+      · exact Or.inr (Or.inl h)
+      · exact Or.inr (Or.inr h)
+    · rintro (h | h | h)
+      · exact Or.inl (Or.inl h)
+      · exact Or.inl (Or.inr h)
+      · exact Or.inr h
+
+/-- `Sub`: set difference -/
+theorem sub_spec : ∀ {b a : Ranges}, RInv a → RInv b →
+    ∃ c, sub a b = .ok c ∧ RInv c ∧ ∀ h, mem c h ↔ mem a h ∧ ¬ mem b h
+  | [], a, ha, _ => ⟨a, rfl, ha, fun h => by simp [mem_nil]⟩
+  | r :: b, a, ha, hb => by
+    obtain ⟨_, hv, hb'⟩ := inv_cons.1 hb
+    obtain ⟨a', h1, h2, h3⟩ := removeRelaxed_spec ha hv
+    obtain ⟨c, h4, h5, h6⟩ := sub_spec (b := b) h2 hb'
+    refine ⟨c, by simp [sub, h1, expectOk_ok, h4], h5, ?_⟩
+    intro h
+    rw [h6, h3, mem_cons]
+    constructor
+    · rintro ⟨⟨h1, h2⟩, h3⟩
+      exact ⟨h1, fun hc => hc.elim h2 h3⟩
+    · rintro ⟨h1, h2⟩
+      exact ⟨⟨h1, fun hc => h2 (Or.inl hc)⟩, fun hc => h2 (Or.inr hc)⟩
+
+theorem bitOr_spec {a b : Ranges} (ha : RInv a) (hb : RInv b) :
+    ∃ c, bitOr a b = .ok c ∧ RInv c ∧ ∀ h, mem c h ↔ mem a h ∨ mem b h := add_spec ha hb
+
+/-- `Not`: complement within the universe of heights `[1, u64::MAX]` -/
+theorem bitNot_spec {a : Ranges} (ha : RInv a) :
+    ∃ c, bitNot a = .ok c ∧ RInv c ∧ ∀ h, mem c h ↔ (1 ≤ h ∧ h ≤ U64_MAX) ∧ ¬ mem a h := by
+  have hv : ValidR (1, U64_MAX) := ⟨Nat.le_refl _, by decide, Nat.le_refl _⟩
+  obtain ⟨u, h1, h2, h3⟩ := insertRelaxed_spec inv_nil hv
+  obtain ⟨c, h4, h5, h6⟩ := sub_spec h2 ha
+  refine ⟨c, by simp [bitNot, h1, expectOk_ok, h4], h5, ?_⟩
+  intro h
+  rw [h6, h3]
+  simp [mem_nil]
+
+/-- `BitAnd` (`!(!a | !b)`): set intersection -/
+theorem bitAnd_spec {a b : Ranges} (ha : RInv a) (hb : RInv b) :
+    ∃ c, bitAnd a b = .ok c ∧ RInv c ∧ ∀ h, mem c h ↔ mem a h ∧ mem b h := by
+  obtain ⟨na, h1, h2, h3⟩ := bitNot_spec ha
+  obtain ⟨nb, h4, h5, h6⟩ := bitNot_spec hb
+  obtain ⟨u, h7, h8, h9⟩ := bitOr_spec h2 h5
+  obtain ⟨c, h10, h11, h12⟩ := bitNot_spec h8
+  refine ⟨c, by simp [bitAnd, h1, h4, h7, h10], h11, ?_⟩
+  intro h
+  rw [h12, h9, h3, h6]
+  constructor
+  · rintro ⟨hb', hn⟩
+    have hma : mem a h := Classical.byContradiction fun hc => hn (Or.inl ⟨hb', hc⟩)
+    have hmb : mem b h := Classical.byContradiction fun hc => hn (Or.inr ⟨hb', hc⟩)
+    exact ⟨hma, hmb⟩
+  · rintro ⟨hma, hmb⟩
+    refine ⟨mem_bounds ha hma, ?_⟩
+    rintro (⟨_, hc⟩ | ⟨_, hc⟩)
+    · exact hc hma
+    · exact hc hmb
+
 end Lumina.Proofs.Ranges
